@@ -46,6 +46,20 @@ def fault_specs(progs, sem, tier, rng):
                 break
             if c not in chosen:
                 chosen.append(c)
+        # the call most others depend on fails while everything else is free to move
+        ndeps = {}
+        for i in jobs:
+            for d in i["deps"]:
+                if not d.startswith("~") and d != i["inst"]:
+                    ndeps[d] = ndeps.get(d, 0) + 1
+        if ndeps:
+            hub = max(sorted(ndeps), key=lambda d: ndeps[d])
+            hj = [i for i in jobs if i["inst"] == hub]
+            if hj:
+                i = hj[-1]
+                specs.append(psrun.make_spec(p, sem[p["name"]], {"kind": "slow", "slow": hub, "seed": rng.randrange(1 << 30), "penv": 0.9},
+                                             name="%s#hub" % p["name"], faults={"%s/%s/%d" % (i["inst"], i["kind"], i["chunk"]): "errors"},
+                                             restart=True))
         for n, (key, kind) in enumerate(chosen[:max(per_prog, len(seen))]):
             sc = {"kind": "random", "seed": rng.randrange(1 << 30), "penv": rng.choice([0.3, 0.6, 0.9])}
             specs.append(psrun.make_spec(p, sem[p["name"]], sc, name="%s#f%d" % (p["name"], n),
@@ -74,7 +88,7 @@ def run(tier, replay=None):
     n = {"quick": 12, "thorough": 120}[tier]
     # map_nested is left out: its top-level outputs are wrong even without a fault
     # (recorded finding of C01), which would only be reported again here
-    progs = [p for p in shapes.catalogue() if p["name"] != "map_nested"] + [gen.gen_program(s) for s in range(n)]
+    progs = [p for p in shapes.catalogue() if not p["name"].startswith("map_nested")] + [gen.gen_program(s) for s in range(n)]
     sem, semres = psrun.semantics(progs)
     vlib.go_build()
     specs = fault_specs(progs, sem, tier, rng)
